@@ -129,6 +129,16 @@ def main(run):
                 'lowent': lambda: bytes(rng.choice(b'ab') for _ in range(n))}[kind]()
         traces.append(group(rng, data, make_key(rng), mn, mx, 3 if quick else 8))
         run.case(('rand', i, mn, mx, n, kind), nontrivial=n > mx)
+    if not quick:
+        # the default bounds on a 12 MB stream, pieces of 16 MiB / 1 MiB / odd sizes
+        data = rng.randbytes(12_000_000)
+        t = {'min': 128_000, 'max': 5_120_000, 'events': [], 'resync': 0, 'keyhex': '', 'stream_len': len(data)}
+        key = make_key(rng)
+        for sid, seg in enumerate([[len(data)], [1 << 20] * 11 + [len(data) - 11 * (1 << 20)], [5_120_001, len(data) - 5_120_001], [999_983] * 12 + [len(data) - 12 * 999_983]]):
+            t['events'].append(event('adapter', sid, seg, chunker.adapter(split(data, seg), key, 128_000, 5_120_000), data, 'fresh'))
+        t['keyhex'] = key.hex()
+        traces.append(t)
+        run.case(('default-bounds', len(data)))
     for t in traces:
         t['check'] = CLAUSES
     pending = list(range(len(traces)))
